@@ -17,6 +17,7 @@ func init() {
 		ID:    "C19",
 		Level: "exploration",
 		Rule: "generated RemoteAddr strings (IPv4, full/compressed/v4-mapped IPv6, zoned IPv6, every port class; malformed forms), Host values, header names/values and variable names; " +
+			"every token returned without an error must count the request as 1; unsupported variables include ones that merely contain a supported name; " +
 			"oracle = net.SplitHostPort for well-formed addresses; a case is non-trivial when the address is well-formed or the variable is refused; distinct by (class,input)",
 		Assumptions: []string{"net.SplitHostPort is the reference for what 'the peer's IP address' of a host:port string is", "malformed RemoteAddr: only absence of panic is demanded"},
 		Parts: []Part{
@@ -189,7 +190,10 @@ func c19Gen(c *Ctx) {
 		if r.IntN(3) == 0 {
 			host = randToken(r, 1+r.IntN(20))
 		}
-		hn := pick(r, []string{"X-Source", "x-source", "Authorization", "X-Forwarded-For", "Weird_Name", "A"})
+		if r.IntN(8) == 0 { // long multi-tenant host names with a common suffix and prefix
+			host = strings.Repeat("tenant-with-a-long-name.", 5+r.IntN(6)) + randToken(r, 1+r.IntN(8)) + ".example.com"
+		}
+		hn := pick(r, []string{"X-Source", "x-source", "Authorization", "X-Forwarded-For", "Weird_Name", "A", "authorization", "user-agent", "date", "te", "referer", "session-id", "host-hint", "etag", "query", "dnt", "User-Agent"})
 		if r.IntN(3) == 0 {
 			hn = "X-" + randToken(r, 1+r.IntN(10))
 		}
@@ -204,6 +208,9 @@ func c19Gen(c *Ctx) {
 		var vals []string
 		for k := 0; k < nvals; k++ {
 			v := randToken(r, r.IntN(12))
+			if r.IntN(6) == 0 { // long values sharing a long prefix (bearer tokens of one issuer, API keys)
+				v = "Bearer " + strings.Repeat("eyJhbGciOiJSUzI1NiIsInR5cCI6IkpXVCJ9.", 4+r.IntN(100)) + randToken(r, 1+r.IntN(40))
+			}
 			vals = append(vals, v)
 			req.Header.Add(hn, v)
 		}
